@@ -230,6 +230,9 @@
 
 /* Trace a function call */
 static void vm_do_trace(JanetFunction *func, int32_t argc, const Janet *argv) {
+    /* Printing may call back into the interpreter (a function as :err), which can move the
+     * fiber stack that argv points into: print from a private copy of the arguments. */
+    argv = janet_tuple_n(argv, argc);
     if (func->def->name) {
         janet_eprintf("trace (%S", func->def->name);
     } else {
@@ -1027,6 +1030,7 @@ static JanetSignal run_vm(JanetFiber *fiber, Janet in) {
             func = janet_unwrap_function(callee);
             if (func->gc.flags & JANET_FUNCFLAG_TRACE) {
                 vm_do_trace(func, fiber->stacktop - fiber->stackstart, fiber->data + fiber->stackstart);
+                stack = fiber->data + fiber->frame;
             }
             vm_commit();
             if (janet_fiber_funcframe(fiber, func)) {
@@ -1067,6 +1071,7 @@ static JanetSignal run_vm(JanetFiber *fiber, Janet in) {
             func = janet_unwrap_function(callee);
             if (func->gc.flags & JANET_FUNCFLAG_TRACE) {
                 vm_do_trace(func, fiber->stacktop - fiber->stackstart, fiber->data + fiber->stackstart);
+                stack = fiber->data + fiber->frame;
             }
             if (janet_fiber_funcframe_tail(fiber, func)) {
                 janet_stack_frame(fiber->data + fiber->frame)->pc = pc;
